@@ -62,6 +62,13 @@ class KGFn:
     def is_adverb_chain(self):
         return isinstance(self.a, list) and isinstance(self.a[0], KGAdverb)
 
+    def __getstate__(self):
+        # the compiled fast path the interpreter attaches to a node is a local closure: it is
+        # rebuilt on demand and must not travel with the function (IPC, key-value store)
+        state = self.__dict__.copy()
+        state.pop('_compiled', None)
+        return state
+
 
 class KGFnWrapper:
     """
